@@ -18,10 +18,23 @@ BIN = {**{p: 'ivp' for p in ['C01', 'C02', 'C03', 'C04', 'C05', 'C06']}, 'C07': 
 
 
 def sh(cmd, env=None, timeout=None):
+    """run in its own process group; on timeout the whole group is killed (a hanging test binary of a mutated
+    tree must not survive its cargo parent)"""
+    import signal
     e = dict(os.environ)
     if env:
         e.update(env)
-    return subprocess.run(cmd, shell=True, capture_output=True, text=True, env=e, timeout=timeout)
+    p = subprocess.Popen(cmd, shell=True, stdout=subprocess.PIPE, stderr=subprocess.PIPE, text=True, env=e, start_new_session=True)
+    try:
+        out, err = p.communicate(timeout=timeout)
+    except subprocess.TimeoutExpired:
+        try:
+            os.killpg(p.pid, signal.SIGKILL)
+        except ProcessLookupError:
+            pass
+        p.communicate()
+        raise
+    return subprocess.CompletedProcess(cmd, p.returncode, out, err)
 
 
 def run_job(args):
@@ -88,6 +101,16 @@ def run_job(args):
                 c = sh(f'{tdir}/harness/release/{BIN[p]} {p} --tier {tier} --seed {job.get("seed", 1)}', env=env, timeout=job.get('timeout', 3600))
                 lines = [l for l in c.stdout.split('\n') if l.startswith(('OK', 'VIOLATION', 'reason', 'GENERATOR', 'WATCHDOG', 'KNOWN'))]
                 res['props'][p] = {'rc': c.returncode, 'wall': round(time.time() - t0, 1), 'lines': [l[:300] for l in lines[-3:]]}
+                # harvest the shrunk failing case as a regression case (LAB_SAVE_REPLAYS=<dir>): it passes on the unchanged
+                # tree and fails under this change, so replaying it first makes the detection independent of the seed
+                save = os.environ.get('LAB_SAVE_REPLAYS')
+                if save and c.returncode == 1:
+                    for l in lines:
+                        if l.startswith('VIOLATION') and 'replay=' in l:
+                            rp = l.split('replay=')[1].strip()
+                            if os.path.exists(rp):
+                                os.makedirs(f'{save}/{p}', exist_ok=True)
+                                shutil.copy(rp, f'{save}/{p}/{name}.json')
             except subprocess.TimeoutExpired:
                 res['props'][p] = {'rc': 'timeout', 'wall': round(time.time() - t0, 1), 'lines': []}
         return res
